@@ -348,7 +348,12 @@ def build(pym, cfg):
             kw["scaling"] = pym.AggScaling(cfg["scaling"], damping=0.0)
         if cfg["active"]:
             a = cfg["act"]
-            kw["active_set"] = pym.AggActiveSet(lower_rel=a[0], upper_rel=a[1], lower_amt=a[2], upper_amt=a[3])
+            # the band only removes entries on the side opposite the approximated extreme: an active set that excludes every
+            # entry (e.g. both extremes by value and the only middle entry too) is a user error, not an admissible input
+            if cfg["par"] > 0:
+                kw["active_set"] = pym.AggActiveSet(lower_rel=a[0], upper_rel=1.0, lower_amt=a[2], upper_amt=1.0)
+            else:
+                kw["active_set"] = pym.AggActiveSet(lower_rel=0.0, upper_rel=a[1], lower_amt=0.0, upper_amt=a[3])
         sx, sy = S("x"), S("y")
         par = cfg["par"]
         if kind == "PNorm":
